@@ -689,6 +689,15 @@ func registerIntrinsics(e *Engine) {
 			return f(mustStr(e, args[0], name), mustStr(e, args[1], name))
 		}
 	}
+	r["strings.ToUpper"] = func(e *Engine, fr *frame, args []Value, site ssa.CallInstruction) Value {
+		return strings.ToUpper(mustStr(e, args[0], "ToUpper"))
+	}
+	r["strings.EqualFold"] = func(e *Engine, fr *frame, args []Value, site ssa.CallInstruction) Value {
+		return strings.EqualFold(mustStr(e, args[0], "EqualFold"), mustStr(e, args[1], "EqualFold"))
+	}
+	r["strings.ReplaceAll"] = func(e *Engine, fr *frame, args []Value, site ssa.CallInstruction) Value {
+		return strings.ReplaceAll(mustStr(e, args[0], "ReplaceAll"), mustStr(e, args[1], "ReplaceAll"), mustStr(e, args[2], "ReplaceAll"))
+	}
 	r["strings.Index"] = func(e *Engine, fr *frame, args []Value, site ssa.CallInstruction) Value {
 		return int64(strings.Index(mustStr(e, args[0], "Index"), mustStr(e, args[1], "Index")))
 	}
